@@ -5,6 +5,7 @@ Every model here is part of the trusted base and is listed in the evidence files
 """
 import math
 import struct
+from fractions import Fraction
 
 from . import sym as S
 from . import fpsym as FS
@@ -202,6 +203,18 @@ def install(it):
     reg(['ceil', 'llvm.ceil.f64'], m1('ceil', lambda x: float(math.ceil(x)) if math.isfinite(x) else x, lambda it, x: S.ceil(x)))
     reg(['trunc', 'llvm.trunc.f64'], m1('trunc', lambda x: float(math.trunc(x)) if math.isfinite(x) else x))
     reg(['round', 'llvm.round.f64'], m1('round', lambda x: float(math.floor(abs(x) + 0.5)) * (1 if x >= 0 else -1) if math.isfinite(x) else x))
+    def lround(it, a):
+        x = a[0]
+        if type(x) is float:
+            if not math.isfinite(x): return UNDEF
+            r = int(math.floor(abs(x) + 0.5)); r = r if x >= 0 else -r
+            return r & ((1 << 64) - 1)
+        if it.mode == 'fp':
+            n = S.mk('f_lround', (x,), 'I', 64); n.lo = 0; n.hi = (1 << 64) - 1
+            return n
+        # exact reals: floor(x + 1/2) for x >= 0 (negative arguments do not occur for the quantities rounded by this code base)
+        return S.r2i(S.add(x, S.const(Fraction(1, 2))), 64)
+    reg(['lround', 'llround', 'llvm.lround.i64.f64', 'llvm.llround.i64.f64'], lround)
     reg(['rint', 'nearbyint', 'llvm.rint.f64', 'llvm.nearbyint.f64'], m1('rint', lambda x: float(round(x)) if math.isfinite(x) else x))
     def c_acos(x):
         return math.acos(x) if -1.0 <= x <= 1.0 else math.nan
